@@ -1,7 +1,7 @@
 """C03 -- every algorithm returns a well-formed consensus over exactly the universe."""
 from vf import ref
 from vf.core import exc_desc
-from vf.lazy import libx, common
+from vf.lazy import ck, libx, common
 from vf.monitors import algos
 
 PROP = "C03"
@@ -48,43 +48,66 @@ def check_case(case, ctx):
     common.set_case(ctx, case)
     dataset = libx.mk_dataset(ds)
     scheme = libx.mk_scheme(sch)
-    complete = ref.is_complete(ds)
-    n = len(ref.universe(ds))
     ctx.count("class:" + case.get("dcls", "?"))
     any_ilp = False
     for cfg in case["configs"]:
         one = case["one"]
         seeds = [case["libseed"] + k for k in range(3)] if libx.is_random_config(cfg) else [case["libseed"]]
         for libseed in seeds:
-            sub = {"ds": ds, "scheme": sch, "configs": [cfg], "one": one, "libseed": libseed}
-            st, cons, ilps = algos.run_config(cfg, dataset, scheme, one, libseed)
-            ctx.count("runs")
-            ctx.count("runs:" + cfg)
-            if ilps:
+            if judge_run(ctx, cfg, dataset, ds, scheme, sch, one, libseed, {}):
                 any_ilp = True
-            if st != "ok":
-                if st == "exc" and algos.refusal_is_documented(cfg, cons, complete, one):
-                    ctx.count("refused")
-                    ctx.count("refused:" + cfg)
-                    continue
-                ctx.violation(algos.exc_signature(PROP, cons), f"{cfg} (at_most_one={one}) did not return a "
-                              f"consensus: {exc_desc(cons)}", sub, observed=type(cons).__name__,
-                              expected="a well-formed consensus")
-                continue
-            ctx.count("returned")
-            ctx.count("returned:" + cfg)
-            probs = common.consensus_problems(cons, dataset, one)
-            for sig, what in probs[:3]:
-                ctx.violation(sig, f"{cfg} (at_most_one={one}): {what}", sub,
-                              observed=[libx.raw_ranking(r) for r in cons.consensus_rankings][:4]
-                              if hasattr(cons, "consensus_rankings") else repr(cons), expected=sorted(map(str, ref.universe(ds))))
-            if not probs:
-                r0 = cons.consensus_rankings[0]
-                if n >= 3 and (ilps or len(r0) >= 2):
-                    ctx.nontrivial(sub)
-                    ctx.sample({**sub, "returned": [libx.raw_ranking(r) for r in cons.consensus_rankings][:3]}, key=cfg)
     if any_ilp:
         ctx.count("ilp_cases")
+    # history: the same Dataset object is mutated in place, then aggregated again by the same algorithm objects
+    elems = ref.universe(ds)
+    if len(elems) >= 3:
+        import random
+        r2 = random.Random(case["libseed"])
+        victim = r2.choice(elems)
+        ds2 = [[[e for e in b if e != victim] for b in r] for r in ds]
+        ds2 = [[b for b in r if b] for r in ds2]
+        ds2 = [r for r in ds2 if r]
+        if ds2 and libx.normalise_raw(ds2) == ds2:
+            try:
+                dataset.remove_elements({ck.Element(victim)})
+            except Exception:      # pylint: disable=broad-except
+                return
+            for cfg in case["configs"][:3]:
+                ctx.count("runs_after_in_place_mutation")
+                judge_run(ctx, cfg, dataset, libx.raw_dataset(dataset), scheme, sch, case["one"], case["libseed"],
+                          {"after_remove_elements": victim, "original_ds": ds})
+
+
+def judge_run(ctx, cfg, dataset, ds, scheme, sch, one, libseed, extra):
+    """runs one configuration and judges what comes back; returns True if an ILP was built"""
+    complete = ref.is_complete(ds)
+    n = len(ref.universe(ds))
+    sub = {"ds": ds, "scheme": sch, "configs": [cfg], "one": one, "libseed": libseed, **extra}
+    st, cons, ilps = algos.run_config(cfg, dataset, scheme, one, libseed)
+    ctx.count("runs")
+    ctx.count("runs:" + cfg)
+    if st != "ok":
+        if st == "exc" and algos.refusal_is_documented(cfg, cons, complete, one):
+            ctx.count("refused")
+            ctx.count("refused:" + cfg)
+            return bool(ilps)
+        ctx.violation(algos.exc_signature(PROP, cons), f"{cfg} (at_most_one={one}) did not return a "
+                      f"consensus: {exc_desc(cons)}", sub, observed=type(cons).__name__,
+                      expected="a well-formed consensus")
+        return bool(ilps)
+    ctx.count("returned")
+    ctx.count("returned:" + cfg)
+    probs = common.consensus_problems(cons, dataset, one)
+    for sig, what in probs[:3]:
+        ctx.violation(sig, f"{cfg} (at_most_one={one}): {what}", sub,
+                      observed=[libx.raw_ranking(r) for r in cons.consensus_rankings][:4]
+                      if hasattr(cons, "consensus_rankings") else repr(cons), expected=sorted(map(str, ref.universe(ds))))
+    if not probs:
+        r0 = cons.consensus_rankings[0]
+        if n >= 3 and (ilps or len(r0) >= 2):
+            ctx.nontrivial(sub)
+            ctx.sample({**sub, "returned": [libx.raw_ranking(r) for r in cons.consensus_rankings][:3]}, key=cfg)
+    return bool(ilps)
 
 
 def reach(counters, tier, info):
@@ -97,6 +120,9 @@ def reach(counters, tier, info):
         req = need
         out.append({"name": f"consensuses returned by {cfg}", "observed": v, "required": req, "ok": v >= req})
     cases = sum(v for k, v in counters.items() if k.startswith("class:"))
+    v = counters.get("runs_after_in_place_mutation", 0)
+    out.append({"name": "runs on a Dataset object mutated in place after a first series of runs", "observed": v,
+                "required": 300 if tier == "quick" else 3000, "ok": v >= (300 if tier == "quick" else 3000)})
     v = counters.get("ilp_cases", 0)
     out.append({"name": "datasets on which an ILP was really built", "observed": f"{v}/{cases}",
                 "required": ">= 30%", "ok": cases > 0 and v >= 0.3 * cases})
